@@ -33,6 +33,14 @@ def inv9(db):
     return int(round(v))
 
 
+def mhz(f):
+    """Hz -> integer MHz (carrier frequencies and range boundaries are only compared)"""
+    v = float(f) / 1e6
+    if abs(v - round(v)) > 1e-3:
+        raise Machinery(f'frequency not representable in MHz: {f}')
+    return int(round(v))
+
+
 def arr_udb(a, n):
     a = np.broadcast_to(np.asarray(a, dtype=float), (n,))
     return [udb(x) for x in a]
@@ -81,6 +89,7 @@ class RxRecorder(contextlib.AbstractContextManager):
     def __init__(self):
         self.evals = []
         self._line = {}
+        self._freq = {}
         self._nup = {}
         self._pending = {}
         self._keep = []
@@ -113,6 +122,7 @@ class RxRecorder(contextlib.AbstractContextManager):
                 noise = np.asarray(spectral_info.ase) + np.asarray(spectral_info.nli)
                 line = noise / np.asarray(spectral_info.signal) * 12.5e9 / np.asarray(spectral_info.baud_rate)
             rec._line[id(el)] = np.array(line, copy=True)
+            rec._freq[id(el)] = np.array(spectral_info.frequency, dtype=float, copy=True)
             rec._keep.append(el)
             return out
 
@@ -130,6 +140,7 @@ class RxRecorder(contextlib.AbstractContextManager):
                 return                      # the emitting transceiver (no noise yet) or a call outside the protocol
             n = len(p['rx'])
             ev = dict(uid=el.uid, obj=id(el), req=rec._ctx, nup=p['nup'], nargs=p['nargs'], pen_id=id(penalties), line=line,
+                      freq=rec._freq[id(el)],
                       rx=p['rx'], baud=float(np.asarray(el.baud_rate).flat[0]),
                       cd=np.array(el.chromatic_dispersion, dtype=float, copy=True),
                       pmd=np.array(el.pmd, dtype=float, copy=True), pdl=np.array(el.pdl, dtype=float, copy=True),
@@ -162,7 +173,7 @@ def project_eval(ev, mode_idx, direction, kind):
     """one recomputation of receiver figures -> integer record for Trace_Feasibility"""
     n = len(ev['rx'])
     out = dict(ran=1, kind=kind, mode=mode_idx, dir=direction, nup=ev['nup'],
-               line=[int(round(float(x) * 1e9)) for x in ev['line']],
+               line=[int(round(float(x) * 1e9)) for x in ev['line']], freq=[mhz(x) for x in ev['freq']],
                rx=[inv9(x) for x in ev['rx']], rxdb=[udb(x) for x in ev['rx']],
                cd=[int(round(float(x) * UNIT['chromatic_dispersion'])) for x in ev['cd']],
                pmd=[int(round(float(x) * UNIT['pmd'])) for x in ev['pmd']],
@@ -173,7 +184,7 @@ def project_eval(ev, mode_idx, direction, kind):
     return out
 
 
-NOT_RUN = dict(ran=0, kind=0, mode=0, dir=0, nup=0, line=[], rx=[], rxdb=[], cd=[], pmd=[], pdl=[], tot=[],
+NOT_RUN = dict(ran=0, kind=0, mode=0, dir=0, nup=0, line=[], freq=[], rx=[], rxdb=[], cd=[], pmd=[], pdl=[], tot=[],
                pcd=[], ppmd=[], ppdl=[])
 
 
@@ -224,9 +235,15 @@ BAND = {'lower-frequency': 191.3e12, 'upper-frequency': 196.1e12}
 
 
 def osnr_profiles(listed):
-    """[(id, 'add'|'drop', osnr dB), ...] in LISTED order -> roadm-path-impairments of an equipment Roadm entry"""
-    return [{'roadm-path-impairments-id': i, f'roadm-{kind}-path': [{'frequency-range': dict(BAND), 'roadm-osnr': osnr}]}
-            for i, kind, osnr in listed]
+    """[(id, 'add'|'drop', osnr), ...] in LISTED order -> roadm-path-impairments of an equipment Roadm entry.
+    osnr: a value in dB (one range covering the band) or the frequency ranges of the profile AS LISTED,
+    [(lower Hz, upper Hz, osnr dB or None), ...] - they may overlap"""
+    def ranges(osnr):
+        if not isinstance(osnr, (list, tuple)):
+            return [{'frequency-range': dict(BAND), 'roadm-osnr': osnr}]
+        return [dict({'frequency-range': {'lower-frequency': lo, 'upper-frequency': hi}},
+                     **({} if o is None else {'roadm-osnr': o})) for lo, hi, o in osnr]
+    return [{'roadm-path-impairments-id': i, f'roadm-{kind}-path': ranges(osnr)} for i, kind, osnr in listed]
 
 
 class Bench:
@@ -352,8 +369,11 @@ class Bench:
                 for pk in ('add', 'drop', 'express'):
                     bands = prof.get(f'roadm-{pk}-path')
                     if bands:
-                        profiles.append({'id': prof['roadm-path-impairments-id'], 'kind': pk,
-                                         'inv': inv9(bands[0]['roadm-osnr']) if 'roadm-osnr' in bands[0] else 0})
+                        profiles.append({'id': prof['roadm-path-impairments-id'], 'kind': pk, 'ranges': [
+                            {'lo': mhz(b['frequency-range']['lower-frequency']),
+                             'hi': mhz(b['frequency-range']['upper-frequency']),
+                             'inv': inv9(b['roadm-osnr']) if b.get('roadm-osnr') is not None else NONE}
+                            for b in bands]})       # the ranges as listed
             sel = NONE
             for pd in topo_el[el.uid].get('params', {}).get('per_degree_impairments', []):
                 if pd['from_degree'] == path[k - 1].uid and pd['to_degree'] == path[k + 1].uid:
@@ -501,13 +521,17 @@ def si_int(entries):
     return [{'dflt': e.get('type_variety', 'default') == 'default', 'margin': udb(e['sys_margins'])} for e in entries]
 
 
-def stage_inv(st):
+def stage_inv(st, f):
     """mirror of FeasibilityOps.StageInv, used ONLY for the reported composition deviation (not for a verdict)"""
     from harness.gnpy_util import NONE
     if st['sel'] != NONE:
-        return next(p['inv'] for p in st['profiles'] if p['id'] == st['sel'])
-    same = [p for p in st['profiles'] if p['kind'] == st['kind']]
-    return same[0]['inv'] if same else st['dflt']
+        prof = next(p for p in st['profiles'] if p['id'] == st['sel'])
+    else:
+        same = [p for p in st['profiles'] if p['kind'] == st['kind']]
+        if not same:
+            return st['dflt']
+        prof = same[0]
+    return next((r['inv'] for r in prof['ranges'] if r['lo'] <= f <= r['hi'] and r['inv'] != NONE), 0)
 
 
 def outcome_of(req, eq, exc):
